@@ -13,3 +13,32 @@ def shared(prop, module, *suffixes, label=None):
     if not out:
         raise RuntimeError(f"no unit of {module} matches {suffixes}")
     return out
+
+
+def only_clauses(unit, prop, kinds=("raises", "pre", "frame"), label="exception-clauses"):
+    """The same unit counted under another property for some kinds of its obligations only (e.g. the exception clauses of the type
+    arms under C03: which value conforms is C02's clause and its known findings stay there).  The body is executed as before; the
+    obligations of the other kinds are not emitted."""
+    def filtered(fn):
+        if fn is None:
+            return None
+
+        def run(ctx, st, outcome):
+            real = ctx.oblige
+
+            def oblige(kind, name, formula, **kw):
+                if kind in kinds:
+                    return real(kind, name, formula, **kw)
+            ctx.oblige = oblige
+            try:
+                return fn(ctx, st, outcome)
+            finally:
+                ctx.oblige = real
+        return run
+
+    def post(ctx, st, result):
+        if unit.post is not None:
+            filtered(unit.post)(ctx, st, result)
+        ctx.oblige("post", "normal-return:this-property's-clauses-of-the-unit-are-its-exception-clauses(checked on the raising paths)", True)
+
+    return dataclasses.replace(unit, prop=prop, post=post, raises=filtered(unit.raises), label=(unit.label + "+" + label).lstrip("+"))
